@@ -709,6 +709,17 @@ class World:
                 tb[:] = ((np.arange(d * w).reshape(d, w)) % (mx + 1)).astype(tb.dtype)
             elif grid == "zero":
                 tb[:] = 0
+            elif grid == "rand":
+                rs = np.random.RandomState(ev.get("gseed", 1) & 0xFFFFFFFF)
+                nr_ = int(getattr(n.primary, "num_reserved", 0))
+                gd = ev.get("gdist", "uniform")
+                if gd == "log":  # counters in the probabilistic range
+                    vals = rs.randint(min(nr_, mx), mx + 1, size=(d, w))
+                elif gd == "low":
+                    vals = rs.randint(0, min(nr_ + 2, mx) + 1, size=(d, w))
+                else:
+                    vals = rs.randint(0, mx + 1, size=(d, w))
+                tb[:] = vals.astype(tb.dtype)
             for r, c, val in ev.get("cells", []):
                 tb[r % d, c % w] = min(val, mx)
             if "nadd" in ev:
